@@ -17,11 +17,13 @@ Oracle (the property itself, on the real binary): at every step of every history
 `-f json` output (parsed, paths relative, sorted) + exit status of the run that shares the
 history's persistent STATICCHECK_CACHE equals that of the same invocation on a fresh cache.
 """
+import ast as pyast
 import copy
 import hashlib
 import json
 import os
 import re
+import resource
 import shutil
 import threading
 import time
@@ -33,21 +35,30 @@ MODULES = ["Verif.C04.Theorems"]
 THEOREMS = [
     "Verif.C04.cache_inv",
     "Verif.C04.cache_inv_history",
+    "Verif.C04.key_determines_inputs",
     "Verif.C04.warm_eq_cold",
+    "Verif.C04.warm_eq_cold_post",
     "Verif.C04.warm_eq_cold_det",
+    "Verif.C04.warm_eq_cold_gen",
+    "Verif.C04.uncovered_input_breaks",
     "Verif.C04.run_report_eq",
+    "Verif.C04.run_loaded_eq",
     "Verif.C04.checks_not_in_key_ok",
     "Verif.C04.report_uses_checks_only_in_filter",
     "Verif.C04.key_inj",
+    "Verif.C04.gen_covers",
+    "Verif.C04.gen_runtime_covers",
+    "Verif.C04.gen_reads_are_fields",
     "Verif.C04.key_covers_inputs",
     "Verif.C04.pkg_key_covers_inputs",
+    "Verif.C04.src_key_covers_inputs",
     "Verif.C04.serialise_tags",
     "Verif.C04.serialise_emits_required",
     "Verif.C04.serialisePkg_tags",
 ]
 GODEBUG = "gocachehash=1"
 MODPATH = "example.com/m"
-LEVELS = ["above", "root", "app", "lib", "lib/dep", "lib/dep/leaf"]
+LEVELS = ["above", "root", "app", "lib", "lib/dep", "lib/dep/leaf", "srv"]
 CONF_VARIANTS = [
     'checks = ["all"]\n',
     'checks = ["inherit", "-SA1019"]\n',
@@ -56,14 +67,23 @@ CONF_VARIANTS = [
     'initialisms = ["ID"]\n',
     'dot_import_whitelist = ["example.com/m/lib/dep"]\n',
     'checks = ["all", "-ST1000"]\ninitialisms = ["inherit", "FOO"]\n',
+    'http_status_code_whitelist = ["200", "400", "404", "500", "503"]\n',
+    'http_status_code_whitelist = ["inherit", "503"]\ndot_import_whitelist = ["inherit"]\n',
+    'http_status_code_whitelist = []\n',
+    'http_status_code_whitelist = ["200", "400", "404", "503"]\n',   # as long as the default list, other content
 ]
 GO_VALUES = [None, "1.3", "1.26"]
 TAGS_VALUES = [None, "verifx"]
 CHECKS_VALUES = [None, "all", "SA*,ST1003", "inherit,-SA4017", "S1005,ST1003,SA1019,U1000,ST1001"]
 GOOS_VALUES = ["linux", "windows"]
-APP_BITS = 10
+GOARCH_VALUES = ["amd64", "arm64"]
+GOMOD_VALUES = ["1.21", "1.7"]
+APP_BITS = 12
 DEP_FACTS = {"dep": ["helper_depr", "pure", "direct_nonnil"], "leaf": ["old_depr", "calc_pure", "get_nonnil"]}
-OP_KINDS = ["edit_target", "flip_dep_fact", "conf", "go", "tags", "tests", "checks", "goos", "revert", "touch"]
+OP_KINDS = ["edit_target", "flip_dep_fact", "conf", "go", "tags", "tests", "checks", "goos", "goarch", "gomod", "http",
+            "break", "godebug", "pattern", "revert", "touch"]
+PATTERNS = ["./...", "./app", "./lib/..."]
+SHORT = {"app": MODPATH + "/app", "dep": MODPATH + "/lib/dep", "leaf": MODPATH + "/lib/dep/leaf", "srv": MODPATH + "/srv"}
 
 
 # --------------------------------------------------------------------------- generated module
@@ -74,13 +94,14 @@ def base_state():
         "leaf": {"old_depr": 1, "calc_pure": 1, "get_nonnil": 1},
         "conf": {l: None for l in LEVELS},
         "go": None, "tags": None, "tests": False, "checks": "all", "goos": "linux", "godebug": None,
+        "goarch": "amd64", "gomod": "1.21", "http": False, "broken": None, "pattern": "./...",
     }
 
 
 def render(st):
     """state -> {path relative to the work dir: content}; the module root is work/mod."""
     f = {}
-    f["mod/go.mod"] = "module %s\n\ngo 1.21\n" % MODPATH
+    f["mod/go.mod"] = "module %s\n\ngo %s\n" % (MODPATH, st.get("gomod", "1.21"))
     lf, dp, m = st["leaf"], st["dep"], st["app_mask"]
     f["mod/lib/dep/leaf/leaf.go"] = "\n".join([
         "// Package leaf is generated.", "package leaf", "",
@@ -94,7 +115,8 @@ def render(st):
         "// E is an error.", "type E struct{}", "", "func (*E) Error() string { return \"e\" }", "",
         "// Get returns an error.", "func Get() error {",
         ("\tvar p *E\n\treturn p" if lf["get_nonnil"] else "\tif sink > 0 {\n\t\treturn &E{}\n\t}\n\treturn nil"),
-        "}", ""])
+        "}", ""]
+        + (["var broken int = \"not an int\"", ""] if st.get("broken") == "leaf" else []))
     f["mod/lib/dep/leaf/tagged.go"] = "//go:build verifx\n\npackage leaf\n\nfunc tagged() {}\n"
     f["mod/lib/dep/dep.go"] = "\n".join([
         "package dep", "", "import \"%s/lib/dep/leaf\"" % MODPATH, "", "var count int", "",
@@ -106,9 +128,14 @@ def render(st):
         "func Fetch() error { return leaf.Get() }", "",
         "func Direct() error {",
         ("\tvar p *leaf.E\n\treturn p" if dp["direct_nonnil"] else "\tif count > 0 {\n\t\treturn &leaf.E{}\n\t}\n\treturn nil"),
-        "}", ""])
+        "}", ""]
+        # a binary literal: accepted by the compiler (go.mod says go >= 1.13) but rejected by the
+        # type checker of the runner when the target version is -go 1.3, i.e. the analysis of
+        # this package *fails after the key was computed* and its dependents are not run
+        + (["var mask = 0b101", ""] if st.get("broken") == "dep-lang" else [])
+        + (["var broken int = \"not an int\"", ""] if st.get("broken") == "dep" else []))
     bit = lambda i: (m >> i) & 1
-    body = ["\ts := osSpecific(xs)"]
+    body = ["\ts := osSpecific(xs) + archSpecific(xs)"]
     if bit(0):
         body += ["\tfor _ = range xs {", "\t\ts++", "\t}"]
     if bit(1):
@@ -116,7 +143,9 @@ def render(st):
     if bit(2):
         body += ["\tdep.Wrap().Calc(2)"]
     if bit(3):
-        body += ["\t//lint:ignore SA1019 generated", "\ts += dep.Helper(1)"]
+        # bit 10 turns the directive into an ordinary comment: a comment-only edit that leaves the
+        # compiled archive byte-identical (same lines, same code)
+        body += [("\t//lint:ignore SA1019 generated" if bit(10) else "\t// lint ignore SA1019 generated"), "\ts += dep.Helper(1)"]
     if bit(4):
         body += ["\tdep.Pure(4)"]
     if bit(5):
@@ -126,6 +155,8 @@ def render(st):
     app = ["package app", "", "import \"%s/lib/dep\"" % MODPATH, "", "// rev %d" % st["app_rev"], ""]
     if bit(7):
         app += ["func GetFooId() int { return 1 }", "", "func GetFooApi() int { return 2 }", ""]
+    if bit(11):
+        app += ["func GetBarUrl() int { return 3 }", ""]
     if bit(8):
         app += ["type t1 struct {", "\tA int `json:\"a\"`", "}", "", "type t2 struct {", "\tA int `json:\"b\"`", "}", "",
                 "func conv(x t1) t2 { return t2{A: x.A} }", "", "var _ = conv", ""]
@@ -136,6 +167,13 @@ def render(st):
         f["mod/app/dot.go"] = "package app\n\nimport . \"%s/lib/dep\"\n\nvar dotUse = Pure(1)\n" % MODPATH
     f["mod/app/os_linux.go"] = "package app\n\nfunc osSpecific(xs []int) int {\n\tfor _ = range xs {\n\t}\n\treturn 0\n}\n"
     f["mod/app/os_windows.go"] = "package app\n\nfunc osSpecific(xs []int) int { return len(xs) }\n"
+    f["mod/app/arch_amd64.go"] = "package app\n\nfunc archSpecific(xs []int) int {\n\tfor _ = range xs {\n\t}\n\treturn 0\n}\n"
+    f["mod/app/arch_arm64.go"] = "package app\n\nfunc archSpecific(xs []int) int { return len(xs) }\n"
+    if st.get("http"):
+        # ST1013 (http_status_code_whitelist): 503 and 418 are not in the default whitelist, 404 is
+        f["mod/srv/srv.go"] = ("package srv\n\nimport \"net/http\"\n\nfunc Handle(w http.ResponseWriter, r *http.Request) {\n"
+                               "\thttp.Error(w, \"unavailable\", 503)\n\thttp.Error(w, \"not found\", 404)\n"
+                               "\thttp.Error(w, \"teapot\", 418)\n}\n")
     f["mod/app/tagged.go"] = "//go:build verifx\n\npackage app\n\nfunc taggedLoop(xs []int) {\n\tfor _ = range xs {\n\t}\n}\n"
     f["mod/app/app_test.go"] = ("package app\n\nimport \"testing\"\n\nfunc TestRun(t *testing.T) {\n\tvar xs []int\n"
                                 "\tfor _ = range xs {\n\t}\n\tif Run(nil) < 0 || onlyInTests() < 0 {\n\t\tt.Fatal(\"x\")\n\t}\n}\n")
@@ -184,8 +222,10 @@ def apply_op(states, op):
         st[op["pkg"]][op["fact"]] ^= 1
     elif k == "conf":
         st["conf"][op["level"]] = op["variant"]
-    elif k in ("go", "tags", "tests", "checks", "goos", "godebug"):
+    elif k in ("go", "tags", "tests", "checks", "goos", "godebug", "goarch", "gomod", "http", "pattern"):
         st[k] = op["value"]
+    elif k == "break":
+        st["broken"] = op["value"]
     elif k == "revert":
         st = copy.deepcopy(states[op["to"]])
     elif k == "touch":
@@ -195,8 +235,15 @@ def apply_op(states, op):
     return st
 
 
-def gen_history(rng, length, allow_win_tests):
-    """explicit op list of a history; every choice comes from rng (seeded by VERIF_SEED)."""
+def needs_std(st):
+    """the step analyses packages of the standard library (test variants import testing, srv imports net/http)"""
+    return bool(st["tests"] or st.get("http"))
+
+
+def gen_history(rng, length, full):
+    """explicit op list of a history; every choice comes from rng (seeded by VERIF_SEED).
+    full=False (quick tier): steps that analyse the standard library are kept on the one
+    prewarmed platform (-go unset, linux/amd64) and the net/http package is left to the corpus."""
     states = [base_state()]
     ops = [{"kind": "init"}]
     # a random starting point so that histories do not all begin in the same state
@@ -213,7 +260,8 @@ def gen_history(rng, length, allow_win_tests):
             st["tests"] = rng.chance(1, 3)
     ops[0]["state"] = copy.deepcopy(states[0])
     weights = {"edit_target": 3, "flip_dep_fact": 4, "conf": 4, "go": 3, "tags": 2, "tests": 2, "checks": 3,
-               "goos": 2, "revert": 3, "touch": 1}
+               "goos": 2, "revert": 3, "touch": 1, "goarch": 1, "gomod": 1, "break": 2, "godebug": 1, "pattern": 2,
+               "http": 1 if full else 0}
     bag = [k for k, w in weights.items() for _ in range(w)]
     while len(ops) < length:
         cur = states[-1]
@@ -238,12 +286,24 @@ def gen_history(rng, length, allow_win_tests):
             op["value"] = rng.choice([v for v in CHECKS_VALUES if v != cur["checks"]])
         elif k == "goos":
             op["value"] = rng.choice([v for v in GOOS_VALUES if v != cur["goos"]])
+        elif k == "goarch":
+            op["value"] = rng.choice([v for v in GOARCH_VALUES if v != cur["goarch"]])
+        elif k == "gomod":
+            op["value"] = rng.choice([v for v in GOMOD_VALUES if v != cur["gomod"]])
+        elif k == "http":
+            op["value"] = not cur["http"]
+        elif k == "godebug":
+            op["value"] = rng.choice([v for v in [None, "asynctimerchan=1", "panicnil=1"] if v != cur["godebug"]])
+        elif k == "break":
+            op["value"] = rng.choice([v for v in [None, "dep", "leaf", "dep-lang"] if v != cur["broken"]])
+        elif k == "pattern":
+            op["value"] = rng.choice([v for v in PATTERNS if v != cur["pattern"]])
         elif k == "revert":
             if len(states) < 2:
                 continue
             op["to"] = rng.below(len(states) - 1)
         new = apply_op(states, op)
-        if not allow_win_tests and new["tests"] and new["goos"] == "windows":
+        if not full and needs_std(new) and (new["go"], new["goos"], new["goarch"]) != (None, "linux", "amd64"):
             continue
         states.append(new)
         ops.append(op)
@@ -251,7 +311,7 @@ def gen_history(rng, length, allow_win_tests):
 
 
 def states_of(ops):
-    states = [copy.deepcopy(ops[0].get("state") or base_state())]
+    states = [dict(base_state(), **copy.deepcopy(ops[0].get("state") or {}))]
     for op in ops[1:]:
         states.append(apply_op(states, op))
     return states
@@ -266,13 +326,13 @@ def invocation(sc, st):
         cmd += ["-tags", st["tags"]]
     if st["checks"] is not None:
         cmd += ["-checks", st["checks"]]
-    cmd += ["./..."]
+    cmd += [st.get("pattern", "./...")]
     return cmd
 
 
 def run_sc(sc, st, cwd, cache, procs):
     godebug = GODEBUG + (("," + st["godebug"]) if st.get("godebug") else "")
-    env = vlib.go_env({"STATICCHECK_CACHE": cache, "GODEBUG": godebug, "GOOS": st["goos"], "GOARCH": "amd64"})
+    env = vlib.go_env({"STATICCHECK_CACHE": cache, "GODEBUG": godebug, "GOOS": st["goos"], "GOARCH": st.get("goarch", "amd64")})
     if procs:
         env["GOMAXPROCS"] = str(procs)
     rc, so, se = vlib.run(invocation(sc, st), cwd=cwd, env=env, timeout=1800)
@@ -308,10 +368,73 @@ RE_SUB = re.compile(r'^HASH subkey ([0-9a-f]{64}) "(\w+)" = ([0-9a-f]{64})$')
 RE_HEX = re.compile(r"^[0-9a-f]{64}$")
 
 
+def go_unquote(payload):
+    """a Go %q string -> its text (the escapes Go emits are a subset of Python's)"""
+    try:
+        v = pyast.literal_eval(payload)
+        return v if isinstance(v, str) else payload
+    except (ValueError, SyntaxError):
+        return payload
+
+
+ZERO_VALUES = ("[]string(nil)", "nil", '""', "0", "false")
+
+
+def parse_cfg(payload):
+    """the `cfg %#v` component -> [(field, printed value)] of the fields whose printed value is
+    not the zero value; None if the payload is not a printed struct"""
+    txt = go_unquote(payload).strip()
+    m = re.match(r"^cfg [\w.]*\{(.*)\}$", txt, re.S)
+    if not m:
+        return None
+    body = m.group(1)
+    parts, depth, inq, cur, i = [], 0, False, "", 0
+    while i < len(body):
+        ch = body[i]
+        if inq:
+            cur += ch
+            if ch == "\\" and i + 1 < len(body):
+                cur += body[i + 1]
+                i += 1
+            elif ch == '"':
+                inq = False
+        elif ch == '"':
+            inq = True
+            cur += ch
+        elif ch in "{([":
+            depth += 1
+            cur += ch
+        elif ch in "})]":
+            depth -= 1
+            cur += ch
+        elif ch == "," and depth == 0:
+            parts.append(cur)
+            cur = ""
+        else:
+            cur += ch
+        i += 1
+    if cur.strip():
+        parts.append(cur)
+    out = []
+    for part in parts:
+        name, sep, val = part.strip().partition(":")
+        if not sep or not re.match(r"^\w+$", name):
+            return None
+        if val not in ZERO_VALUES:
+            out.append((name, val))
+    return out
+
+
 def comp_of_action(payload, first):
     """one Write of subrunner.do -> (tag, value)"""
     if first:
         return ("salt", payload)
+    m = re.match(r'^"env (\w+) (.*)\\n"$', payload)
+    if m:
+        return ("env", (m.group(1).upper(), m.group(2)))
+    if payload.startswith('"cfg '):
+        fields = parse_cfg(payload)
+        return ("cfg", tuple(fields) if fields is not None else (("<unparsed>", payload),))
     m = re.match(r'^"vetout \\"(.*)\\" ([0-9a-f]{64})\\n"$', payload)
     if m:
         return ("vetout", (m.group(1), m.group(2)))
@@ -447,6 +570,12 @@ class Interner:
         return self.m[s]
 
 
+def tok_name(n):
+    """names of configuration fields / environment variables go to the model verbatim (the
+    regenerated shape lists them by name); anything that is not a plain word is made one"""
+    return n if re.match(r"^\w+$", n) else "x" + hashlib.sha256(n.encode()).hexdigest()[:12]
+
+
 KNOWN_ACT = {"salt", "cfg", "pkg", "analyzers", "go", "env", "vetout"}
 KNOWN_PKG = {"salt", "goos", "import-self", "files", "import"}
 
@@ -498,9 +627,10 @@ def model_line_and_expect(steps):
             if None in a["deps"]:
                 problems.append("step %d %s: a vetout component matches no earlier action's facts file" % (si, a["name"]))
             deps = [d for d in a["deps"] if d is not None]
-            t = ["act", I(a["name"]), "1" if a["initial"] else "0", I(c.get("cfg", "<missing cfg>")),
-                 I(goos[0][0]) if goos else I("<missing goos>"), I(goos[0][1]) if goos else I("<missing goarch>"),
-                 str(len(files))] + [I(x) for x in files]
+            cfgf = list(c.get("cfg", (("<missing>", "cfg"),)))
+            t = ["act", I(a["name"]), "1" if a["initial"] else "0", str(len(cfgf))] + [y for (fn, fv) in cfgf for y in (tok_name(fn), I(fv))]
+            t += [I(goos[0][0]) if goos else I("<missing goos>"), I(goos[0][1]) if goos else I("<missing goarch>"),
+                  str(len(files))] + [I(x) for x in files]
             t += [str(len(imps))] + [I(y) for x in imps for y in x]
             t += [str(len(px))] + [I(y) for x in px for y in x]
             t += [str(len(kx))] + [I(y) for x in kx for y in x]
@@ -528,8 +658,10 @@ def model_line_and_expect(steps):
                     comps.append("extra=" + I(tg))
             exp.append("%s%d+/%s" % (letter, seen.index(a["sum"]), ",".join(comps)))
         glob = glob or (None, None, None, None)
+        envp = [glob[3]] if glob[3] else []
         toks += ["step", I(glob[0] or "<missing salt>"), I(glob[1] or "<missing analyzers>"),
-                 I(glob[2] or "<missing go>"), I(glob[3] or "<missing env>"), str(len(acts))] + atoks
+                 I(glob[2] or "<missing go>"), str(len(envp))] + [y for (en, ev) in envp for y in (tok_name(en), I(ev))]
+        toks += [str(len(acts))] + atoks
         expect_steps.append(" ".join(exp))
     return " ".join(toks), " | ".join(expect_steps), problems
 
@@ -548,23 +680,26 @@ def freeze(st):
     return json.dumps(st, sort_keys=True)
 
 
-def run_history(ctx, sc, hid, ops, stdcache, replay_dir=None):
+def run_history(ctx, sc, hid, ops, stdcache, parallel=False):
     """Runs one history: per step a warm run (persistent cache of this history) and a cold run
-    (fresh cache: empty, or — when the step analyses tests, i.e. the standard library — a
-    copy of the cache that holds only facts of the standard library)."""
+    (fresh cache: empty, or — when the step analyses packages of the standard library — a copy
+    of the cache that holds only facts of the standard library).  parallel=True: the warm runs
+    use GOMAXPROCS=4 (concurrent writers of one cache inside a run); the HASH blocks then
+    interleave, so such a history serves the oracle only, not the model tie."""
     work = os.path.join(ctx.scratch, "hist", "h%s" % hid, "work")
     os.makedirs(work, exist_ok=True)
     root = os.path.join(work, "mod")
     warm = os.path.join(ctx.scratch, "hist", "h%s" % hid, "warm")
     shutil.copytree(stdcache, warm)
     states = states_of(ops)
-    res = {"id": hid, "ops": ops, "steps": [], "violations": [], "observed": [], "t": time.time()}
+    res = {"id": hid, "ops": ops, "steps": [], "violations": [], "observed": [], "cold": [], "parallel": parallel,
+           "t": time.time()}
     for si, (op, st) in enumerate(zip(ops, states)):
         sync_tree(work, render(st), touch=(op["kind"] == "touch"))
-        rc_w, so_w, se_w = run_sc(sc, st, root, warm, 1)
-        acts = observe_actions(se_w, warm)
+        rc_w, so_w, se_w = run_sc(sc, st, root, warm, 4 if parallel else 1)
+        acts = [] if parallel else observe_actions(se_w, warm)
         cold = os.path.join(ctx.scratch, "hist", "h%s" % hid, "cold%d" % si)
-        truly_empty = not st["tests"]
+        truly_empty = not needs_std(st)
         if truly_empty:
             os.makedirs(cold)
         else:
@@ -577,18 +712,21 @@ def run_history(ctx, sc, hid, ops, stdcache, replay_dir=None):
             # neither run produced a report: the invocation itself is broken (not a property matter)
             raise vlib.HarnessError("staticcheck failed in both runs (history %s step %d): rc=%d/%d %s"
                                     % (hid, si, rc_w, rc_c, "\n".join(other_stderr(se_c))[-1500:]))
-        step = {"op": op, "state": st, "cmd": " ".join(invocation("staticcheck", st)), "goos": st["goos"],
+        step = {"op": op, "state": st, "cmd": " ".join(invocation("staticcheck", st)), "goos": st["goos"], "goarch": st["goarch"],
                 "hits": [a["name"] for a in acts if a["obs"] == "h" and a["name"].startswith(MODPATH)],
                 "misses": [a["name"] for a in acts if a["obs"] == "m" and a["name"].startswith(MODPATH)],
                 "failed": [a["name"] for a in acts if a["obs"] == "f"],
                 "n_actions": len(acts), "n_problems": len(cw["problems"]), "cold_truly_empty": truly_empty,
+                "compile_problems": sum(1 for p in cc["problems"] if '"code": "compile"' in p),
                 "stderr_warm": other_stderr(se_w)[:5], "stderr_differs": sorted(other_stderr(se_w)) != sorted(other_stderr(se_c))}
         res["steps"].append(step)
         res["observed"].append(acts)
+        res["cold"].append(cc)
         if cw != cc:
             only_w = [p for p in cw["problems"] if p not in cc["problems"]]
             only_c = [p for p in cc["problems"] if p not in cw["problems"]]
-            res["violations"].append({"step": si, "op": op, "cmd": step["cmd"], "goos": st["goos"],
+            res["violations"].append({"step": si, "op": op, "cmd": step["cmd"], "goos": st["goos"], "goarch": st["goarch"],
+                                      "warm_GOMAXPROCS": 4 if parallel else 1,
                                       "exit_warm": rc_w, "exit_cold": rc_c,
                                       "only_in_warm_cache_run": only_w[:20], "only_in_cold_cache_run": only_c[:20],
                                       "warm_hits": step["hits"], "warm_misses": step["misses"],
@@ -600,10 +738,73 @@ def run_history(ctx, sc, hid, ops, stdcache, replay_dir=None):
     return res
 
 
+# --------------------------------------------------------------------------- witness expectations (corpus)
+def comp_dict(a):
+    """action record -> {tag: value}; the package hash is expanded into pkg:<tag> entries"""
+    d = {}
+    for (t, v) in a["comps"]:
+        if t == "vetout":
+            d.setdefault("vetout", []).append(v)
+        else:
+            d[t] = v
+    pb = a.get("pkgblock")
+    if pb:
+        for (t, v) in pb["comps"]:
+            d.setdefault("pkg:" + t, []).append(v)
+    return d
+
+
+def changed_tags(a, b):
+    da, db = comp_dict(a), comp_dict(b)
+    return sorted(t for t in set(da) | set(db) if da.get(t) != db.get(t))
+
+
+def check_expectations(res):
+    """Corpus histories carry, per op, what flipping that one input must do to the real run:
+      key_change: [short package names]  the action key of these packages differs from the previous step's
+      comp: "<tag>"                      … and that component is among the ones whose value changed
+      output_change: true                the cold run reports something else than the previous step's cold run
+      all_hit: true                      every action of the module is served from the cache
+    -> (unmet key requirements [= the component no longer covers the input], weaker notes)"""
+    unmet, notes, n = [], [], 0
+    for si, op in enumerate(res["ops"][:len(res["steps"])]):
+        ex = op.get("expect")
+        if not ex or si == 0 or res["parallel"]:
+            continue
+        cur = {a["name"]: a for a in res["observed"][si]}
+        prev = {a["name"]: a for a in res["observed"][si - 1]}
+        where = {"history": res["id"], "step": si, "op": {k: v for k, v in op.items() if k != "expect"}}
+        for short in ex.get("key_change", []):
+            n += 1
+            name = SHORT[short]
+            if name not in cur or name not in prev:
+                notes.append(dict(where, note="package %s has no action in one of the two steps" % short))
+                continue
+            if cur[name]["sum"] == prev[name]["sum"]:
+                unmet.append(dict(where, package=name, problem="the input changed alone but the action key did not change"))
+                continue
+            want = ex.get("comp")
+            if want and want not in changed_tags(prev[name], cur[name]):
+                unmet.append(dict(where, package=name, problem="the action key changed, but not through component %r (changed: %s)"
+                                  % (want, changed_tags(prev[name], cur[name]))))
+        if ex.get("output_change"):
+            n += 1
+            if res["cold"][si] == res["cold"][si - 1]:
+                notes.append(dict(where, note="witness without effect: the cold run reports the same as before the change"))
+        if ex.get("all_hit"):
+            n += 1
+            if res["steps"][si]["misses"] or res["steps"][si]["failed"]:
+                notes.append(dict(where, note="expected only cache hits, got misses %s failed %s"
+                                  % (res["steps"][si]["misses"], res["steps"][si]["failed"])))
+    return unmet, notes, n
+
+
 def nontrivial_steps(res):
     """steps with >=1 hit on an entry written earlier in this history under a different state"""
     written_at = {}
     out = []
+    if res.get("parallel"):
+        return out
     for si, acts in enumerate(res["observed"]):
         cur = freeze(res["states"][si])
         hit_changed = []
@@ -619,32 +820,40 @@ def nontrivial_steps(res):
 
 # --------------------------------------------------------------------------- prewarm + generated facts
 def prewarm(ctx, sc, combos):
-    """facts of the standard library (everything the test main packages import), once per
-    (-go, GOOS) combination that some history uses together with -tests; merged into one
-    cache directory that contains nothing of the module under test."""
+    """facts of the standard library (everything the test main packages and net/http import),
+    once per (-go, GOOS, GOARCH) combination that some history uses together with -tests or the
+    net/http package; merged into one cache directory that contains nothing of the module under
+    test.  VERIF_C04_PREWARM=<dir> (development aid) keeps that directory between runs of the
+    check; entries are keyed by the build id of the binary, so a stale directory only misses."""
     pw = os.path.join(ctx.scratch, "prewarm")
     mod = os.path.join(pw, "mod")
     os.makedirs(os.path.join(mod, "p", "q"), exist_ok=True)
+    os.makedirs(os.path.join(mod, "h"), exist_ok=True)
     open(os.path.join(mod, "go.mod"), "w").write("module example.com/prewarm\n\ngo 1.21\n")
     open(os.path.join(mod, "p", "q", "q.go"), "w").write("package q\n\nfunc Q() int { return 1 }\n")
     open(os.path.join(mod, "p", "p.go"), "w").write("package p\n\nimport \"example.com/prewarm/p/q\"\n\nfunc P() int { return q.Q() }\n")
     open(os.path.join(mod, "p", "p_test.go"), "w").write("package p\n\nimport \"testing\"\n\nfunc TestP(t *testing.T) {\n\tif P() != 1 {\n\t\tt.Fatal()\n\t}\n}\n")
-    std = os.path.join(pw, "std")
+    open(os.path.join(mod, "h", "h.go"), "w").write("package h\n\nimport \"net/http\"\n\nfunc H(w http.ResponseWriter) { http.Error(w, \"x\", http.StatusTeapot) }\n")
+    keep = os.environ.get("VERIF_C04_PREWARM")
+    std = os.path.join(keep, "std") if keep else os.path.join(pw, "std")
     os.makedirs(std, exist_ok=True)
     logs = []
 
     def one(c):
-        go, goos = c
-        d = os.path.join(pw, "c_%s_%s" % (go or "module", goos))
-        os.makedirs(d, exist_ok=True)
-        st = dict(base_state(), go=go, goos=goos, tests=True, checks=None)
+        go, goos, goarch = c
+        d = os.path.join(pw, "c_%s_%s_%s" % (go or "module", goos, goarch))
+        if keep:
+            shutil.copytree(std, d)
+        else:
+            os.makedirs(d, exist_ok=True)
+        st = dict(base_state(), go=go, goos=goos, goarch=goarch, tests=True, checks=None)
         rc, so, se = run_sc(sc, st, mod, d, 0)
         if rc not in (0, 1):
             raise vlib.HarnessError("prewarm run failed (%s): rc=%d %s" % (c, rc, "\n".join(other_stderr(se))[-1500:]))
         return d, se
 
-    combos = sorted(combos, key=lambda c: (c[0] or "", c[1]))
-    base = [(None, "linux")]
+    combos = sorted(combos, key=lambda c: (c[0] or "", c[1], c[2]))
+    base = [(None, "linux", "amd64")]
     todo = base + [c for c in combos if c not in base]
     with ThreadPoolExecutor(max_workers=4) as ex:
         for d, se in ex.map(one, todo):
@@ -660,46 +869,108 @@ def prewarm(ctx, sc, combos):
     return std, logs, todo
 
 
-def observed_tags(logs):
-    at, pt = [], []
+def observed_shape(logs):
+    """run-time facts for Generated.lean: tags written, configuration fields ever printed with a
+    non-zero value, environment variables printed"""
+    at, pt, cf, ev = [], [], [], []
     for se in logs:
         pkgs, acts = parse_hash_log(se, sequential=False)
         for a in acts:
-            for (t, _) in a["comps"]:
+            for (t, v) in a["comps"]:
                 if t not in at:
                     at.append(t)
+                if t == "cfg":
+                    for (fn, _) in v:
+                        if fn not in cf:
+                            cf.append(fn)
+                if t == "env" and v[0] not in ev:
+                    ev.append(v[0])
         for b in pkgs.values():
             for (t, _) in b["comps"]:
                 if t not in pt:
                     pt.append(t)
-    return at, pt
+    return at, pt, cf, ev
+
+
+def extract_source_shape(ctx):
+    """go/ast extraction from the *current* tree (harness/cmd/c04extract): which configuration
+    fields / environment variables reach the key, which are read at analysis time"""
+    ex = vlib.build_harness(ctx, "c04extract")
+    rc, so, se = vlib.run([vlib.GO, "list", "-deps", "-tags", "verif", "-f", "{{.Dir}}", "./cmd/staticcheck"],
+                          cwd=vlib.REPO, env=vlib.go_env(), timeout=600)
+    if rc != 0:
+        raise vlib.BuildError("go list -deps ./cmd/staticcheck failed: " + se[-2000:])
+    root = os.path.realpath(vlib.REPO)
+    dirs = [d for d in so.split() if os.path.realpath(d).startswith(root + os.sep) or os.path.realpath(d) == root]
+    lf = ctx.path("c04", "linked_dirs.txt")
+    open(lf, "w").write("\n".join(os.path.realpath(d) for d in dirs) + "\n")
+    rc, so, se = vlib.run([ex, root, lf], timeout=600)
+    if rc != 0:
+        raise vlib.HarnessError("c04extract failed: " + se[-2000:])
+    return json.loads(so)
 
 
 def lean_str(s):
     return '"' + s.replace("\\", "\\\\").replace('"', '\\"') + '"'
 
 
-def write_generated(at, pt):
-    src = ("-- GENERATED by checks/c04.py from a run of the real staticcheck binary with GODEBUG=gocachehash=1. Do not edit.\n"
-           "namespace Verif.C04.Gen\n\n"
-           "/-- tags of the components `subrunner.do` wrote into HASH[staticcheck …] (union over all observed actions) -/\n"
-           "def observedActionTags : List String := [%s]\n\n"
-           "/-- tags of the components `computeHash` wrote into HASH[package …] -/\n"
-           "def observedPkgTags : List String := [%s]\n\n"
-           "end Verif.C04.Gen\n") % (", ".join(lean_str(t) for t in at), ", ".join(lean_str(t) for t in pt))
-    return vlib.write_if_changed(os.path.join(vlib.LEAN_DIR, "Verif", "C04", "Generated.lean"), src)
+def lean_list(xs):
+    return "[" + ", ".join(lean_str(x) for x in xs) + "]"
 
 
-def source_listing():
-    """cross-check only: the fmt.Fprintf(h|key, "<tag> …") calls in the two anchored functions"""
-    out = {}
-    for rel, var in (("lintcmd/runner/runner.go", "h"), ("go/loader/hash.go", "key")):
-        try:
-            src = open(os.path.join(vlib.REPO, rel)).read()
-        except OSError:
-            continue
-        out[rel] = re.findall(r'fmt\.Fprintf\(%s, "([a-z]+)' % var, src)
-    return out
+def write_generated(at, pt, cf, ev, src):
+    text = ("-- GENERATED by checks/c04.py (source: harness/cmd/c04extract over the current tree; run time: GODEBUG=gocachehash=1). Do not edit.\n"
+            "import Verif.C04.Model\n"
+            "namespace Verif.C04.Gen\n\n"
+            "/-- tags of the components `subrunner.do` wrote into HASH[staticcheck …] (union over all observed actions) -/\n"
+            "def observedActionTags : List String := %s\n\n"
+            "/-- tags of the components `computeHash` wrote into HASH[package …] -/\n"
+            "def observedPkgTags : List String := %s\n\n"
+            "/-- fields of config.Config whose printed value in a HASH cfg line was ever not the zero value -/\n"
+            "def observedCfgHashed : List String := %s\n\n"
+            "/-- environment variables seen in HASH `env …` lines -/\n"
+            "def observedEnvHashed : List String := %s\n\n"
+            "/-- source: tags of the fmt.Fprintf(h, …) calls of subrunner.do (+ salt of cache.NewHash) -/\n"
+            "def srcActionTags : List String := %s\n\n"
+            "/-- source: tags of the fmt.Fprintf(key, …) calls of computeHash -/\n"
+            "def srcPkgTags : List String := %s\n\n"
+            "/-- source: fields of config.Config -/\n"
+            "def cfgFields : List String := %s\n\n"
+            "/-- source: which named inputs reach the key / are read at analysis time -/\n"
+            "def shape : Shape :=\n"
+            "  { cfgHashed := %s,\n"
+            "    cfgReads := %s,\n"
+            "    envHashed := %s,\n"
+            "    envReads := %s }\n\n"
+            "end Verif.C04.Gen\n") % (lean_list(at), lean_list(pt), lean_list(cf), lean_list(ev),
+                                      lean_list(src["srcActionTags"]), lean_list(src["srcPkgTags"]), lean_list(src["cfgFields"]),
+                                      lean_list(src["cfgHashed"]), lean_list(src["cfgReads"]), lean_list(src["envHashed"]),
+                                      lean_list(src["envReads"]))
+    return vlib.write_if_changed(os.path.join(vlib.LEAN_DIR, "Verif", "C04", "Generated.lean"), text)
+
+
+def shape_obligations(at, pt, cf, ev, src, req_act, req_pkg):
+    """the generated-facts obligations of Theorems.lean, evaluated again in python so that the
+    replay can say which one fails (the kernel check is what counts)"""
+    bad = {}
+
+    def sub(name, xs, ys):
+        miss = [x for x in xs if x not in ys]
+        if miss:
+            bad[name] = miss
+    sub("gen_covers: configuration fields read by an analyzer but not hashed into the cfg component (source)", src["cfgReads"], src["cfgHashed"])
+    sub("gen_covers: environment variables read at analysis time but not written into the key (source)", src["envReads"], src["envHashed"])
+    sub("gen_runtime_covers: configuration fields read by an analyzer but never printed with a value in a HASH cfg line", src["cfgReads"], cf)
+    sub("gen_runtime_covers: environment variables read at analysis time but never printed in a HASH env line", src["envReads"], ev)
+    sub("gen_reads_are_fields: fields read that config.Config does not have", src["cfgReads"], src["cfgFields"])
+    if not src["cfgFields"] or not src["cfgReads"]:
+        bad["gen_reads_are_fields: the extraction found no fields / no readers"] = [src["cfgFields"], src["cfgReads"]]
+    if req_act is not None:
+        sub("key_covers_inputs: model key components never observed in HASH[staticcheck …]", req_act, at)
+        sub("pkg_key_covers_inputs: model package-hash components never observed in HASH[package …]", req_pkg, pt)
+        sub("src_key_covers_inputs: model key components without a Fprintf in subrunner.do", req_act, src["srcActionTags"])
+        sub("src_key_covers_inputs: model package-hash components without a Fprintf in computeHash", req_pkg, src["srcPkgTags"])
+    return bad
 
 
 # --------------------------------------------------------------------------- corpus (targeted histories)
@@ -715,36 +986,50 @@ def corpus_histories():
 
 
 # --------------------------------------------------------------------------- main
+N_GENERATED = {"quick": 8, "thorough": 200}     # generated histories (model tie + oracle), fixed counts
+N_PARALLEL = {"quick": 2, "thorough": 24}       # generated histories whose warm runs use GOMAXPROCS=4 (oracle only)
+
+
 def run(ctx):
     t0 = time.time()
+    ru0 = resource.getrusage(resource.RUSAGE_CHILDREN)
     sc = vlib.build_repo_cmd(ctx, "./cmd/staticcheck")
+    src = extract_source_shape(ctx)
     rng = vlib.SplitMix(ctx.seed).fork("C04")
 
-    # histories (explicit op lists), fixed by the seed
+    # histories (explicit op lists), fixed by the seed; the work is cut by COUNT, never by time
     replay = None
     if ctx.replay:
         replay = json.load(open(ctx.replay))
-    n_max = 24 if ctx.quick else 320
-    n_min = 8 if ctx.quick else 60
-    budget = 150 if ctx.quick else 1380
-    hists = []
+    full = not ctx.quick
+    hists, par_hists = [], []
     if replay is not None and replay.get("ops"):
         hists = [("replay", replay["ops"])]
+        if replay.get("failing_step", {}).get("warm_GOMAXPROCS") == 4:
+            hists, par_hists = [], hists
     else:
-        for i in range(n_max):
+        for i in range(N_GENERATED[ctx.tier]):
             r = rng.fork("h%d" % i)
-            hists.append(("g%d" % i, gen_history(r, 3 + r.below(6), allow_win_tests=not ctx.quick)))
+            hists.append(("g%d" % i, gen_history(r, 3 + r.below(6), full)))
+        for i in range(N_PARALLEL[ctx.tier]):
+            r = rng.fork("p%d" % i)
+            par_hists.append(("p%d" % i, gen_history(r, 3 + r.below(4), full)))
     corpus = [] if (replay is not None and replay.get("ops")) else corpus_histories()
+    only = os.environ.get("VERIF_C04_ONLY")   # development aid: run the named corpus histories only
+    if only:
+        corpus = [c for c in corpus if c[0] in only.split(",")]
+        hists, par_hists = [], []
+        ctx.notes.append("VERIF_C04_ONLY=%s: partial run" % only)
     combos = set()
-    for _, ops in hists + [(n, o) for (n, _, o) in corpus]:
+    for _, ops in hists + par_hists + [(n, o) for (n, _, o) in corpus]:
         for st in states_of(ops):
-            if st["tests"] and st["go"] != "1.3":
-                combos.add((st["go"], st["goos"]))
+            if needs_std(st) and st["go"] != "1.3":
+                combos.add((st["go"], st["goos"], st["goarch"]))
 
     stdcache, logs, warmed = prewarm(ctx, sc, combos)
     t_prewarm = time.time() - t0
-    at, pt = observed_tags(logs)
-    gen_changed = write_generated(at, pt)
+    at, pt, cf, ev = observed_shape(logs)
+    gen_changed = write_generated(at, pt, cf, ev, src)
 
     # Lean build + audit in the background while the real binary runs
     lean = {}
@@ -758,68 +1043,71 @@ def run(ctx):
     th = threading.Thread(target=lean_phase)
     th.start()
 
-    results = []
     workers = 8
+    t_hist0 = time.time()
     with ThreadPoolExecutor(max_workers=workers) as ex:
         futs = [(name, ex.submit(run_history, ctx, sc, "c_" + name, ops, stdcache)) for (name, _, ops) in corpus]
+        gfuts = [ex.submit(run_history, ctx, sc, name, ops, stdcache) for (name, ops) in hists]
+        pfuts = [ex.submit(run_history, ctx, sc, name, ops, stdcache, True) for (name, ops) in par_hists]
         corpus_res = [(name, f.result()) for name, f in futs]
-    t_hist0 = time.time()
-    done_flag = {"stop": False}
-
-    def guarded(name, ops, idx):
-        if done_flag["stop"] and idx >= n_min:
-            return None
-        r = run_history(ctx, sc, name, ops, stdcache)
-        if time.time() - t_hist0 > budget:
-            done_flag["stop"] = True
-        return r
-
-    with ThreadPoolExecutor(max_workers=workers) as ex:
-        futs = [ex.submit(guarded, name, ops, i) for i, (name, ops) in enumerate(hists)]
-        for f in futs:
-            r = f.result()
-            if r is not None:
-                results.append(r)
+        results = [f.result() for f in gfuts]
+        par_res = [f.result() for f in pfuts]
     th.join()
     lean_ok, lean_broke = lean.get("ok", False), lean.get("broke", {})
 
-    all_res = [r for _, r in corpus_res] + results
+    tie_res = [r for _, r in corpus_res] + results
+    all_res = tie_res + par_res
 
-    # ---- X-runtime tie: model replay of every history
+    # ---- X-runtime tie: model replay of every sequential history
     tie_diffs = []
     encode_problems = []
-    model_ok = os.path.exists(vlib.driver_path("C04"))
+    model_ok = os.path.exists(vlib.driver_path("C04")) and lean_ok
     req_act = req_pkg = None
+    if os.path.exists(vlib.driver_path("C04")):
+        try:
+            outs0 = vlib.run_model(ctx, "C04", ["fields"])
+            req_act, req_pkg = [x.split(",") for x in outs0[0].split()]
+        except Exception:  # noqa: the driver is stale or broken; the Lean phase reports it
+            model_ok = False
     if model_ok:
         lines, expects = [], []
-        for r in all_res:
+        for r in tie_res:
             l, e, pr = model_line_and_expect(r["observed"])
             lines.append(l)
             expects.append(e)
             for p in pr:
                 encode_problems.append({"history": r["id"], "problem": p})
-        outs = vlib.run_model(ctx, "C04", ["fields"] + lines)
-        req_act, req_pkg = [x.split(",") for x in outs[0].split()]
-        for r, l, e, o in zip(all_res, lines, expects, outs[1:]):
+        outs = vlib.run_model(ctx, "C04", lines)
+        for r, l, e, o in zip(tie_res, lines, expects, outs):
             if o == "bad-op":
                 raise vlib.HarnessError("model rejected history line: " + l[:300])
             es, os_ = e.split(" | "), o.split(" | ")
             for si, (a, b) in enumerate(zip(es, os_)):
                 at_, bt_ = a.split(" ") if a else [], b.split(" ") if b else []
+                if len(at_) != len(bt_):
+                    tie_diffs.append({"history": r["id"], "step": si, "observed": "%d actions" % len(at_), "model": "%d actions" % len(bt_)})
                 for ai, (x, y) in enumerate(zip(at_, bt_)):
                     if norm_model_token(x) != norm_model_token(y):
                         tie_diffs.append({"history": r["id"], "step": si, "action": r["observed"][si][ai]["name"],
                                           "observed": x[:200], "model": y[:200], "ops": r["ops"][:si + 1]})
-    missing_act = [t for t in (req_act or []) if t not in at]
-    missing_pkg = [t for t in (req_pkg or []) if t not in pt]
+    obligations_bad = shape_obligations(at, pt, cf, ev, src, req_act, req_pkg)
     extra_act = [t for t in at if t not in KNOWN_ACT]
     extra_pkg = [t for t in pt if t not in KNOWN_PKG]
+
+    # ---- witness expectations of the corpus histories
+    unmet, wnotes, n_expect = [], [], 0
+    for _, r in corpus_res:
+        u, w, n = check_expectations(r)
+        unmet += u
+        wnotes += w
+        n_expect += n
 
     # ---- evidence
     oracle_viol = [(r, v) for r in all_res for v in r["violations"]]
     nontriv = {}
     op_hist = {k: 0 for k in OP_KINDS}
-    hit_hist = {"steps_with_hit_of_changed_world": 0, "steps_all_hit": 0, "steps_all_miss": 0}
+    hit_hist = {"steps_with_hit_of_changed_world": 0, "steps_all_hit": 0, "steps_all_miss": 0, "steps_with_failed_analysis": 0,
+                "steps_with_compile_problems": 0}
     n_steps = 0
     n_actions = 0
     for r in all_res:
@@ -832,6 +1120,10 @@ def run(ctx):
                 hit_hist["steps_all_hit"] += 1
             if s["misses"] and not s["hits"]:
                 hit_hist["steps_all_miss"] += 1
+            if s["failed"]:
+                hit_hist["steps_with_failed_analysis"] += 1
+            if s["compile_problems"]:
+                hit_hist["steps_with_compile_problems"] += 1
         for (si, names) in nontrivial_steps(r):
             hit_hist["steps_with_hit_of_changed_world"] += 1
             nontriv[(freeze(r["states"][si]), names, r["steps"][si]["op"]["kind"])] = 1
@@ -840,35 +1132,46 @@ def run(ctx):
         samples.append({"history": r["id"], "steps": [{"op": s["op"] if s["op"]["kind"] != "init" else {"kind": "init"},
                                                        "cmd": s["cmd"], "hits": s["hits"], "misses": s["misses"],
                                                        "problems": s["n_problems"]} for s in r["steps"]]})
+    ru1 = resource.getrusage(resource.RUSAGE_CHILDREN)
     ctx.coverage.update({
         "evaluations": n_steps,
         "distinct_nontrivial": len(nontriv),
         "rule": "one evaluation = one step of a history: warm run (cache shared with all earlier steps) vs the same "
                 "invocation on a fresh cache, outputs compared; non-trivial = the warm run served >=1 action of the "
                 "generated module from an entry written at an earlier step although the world (files, configs, flags, "
-                "GOOS) differs from the world of that earlier step; distinct by (world, set of such actions, edit kind)",
-        "histories": len(all_res), "corpus_histories": len(corpus_res), "generated_histories_run": len(results),
-        "generated_histories_planned": len(hists), "actions_observed": n_actions,
+                "GOOS/GOARCH, go.mod, environment) differs from the world of that earlier step; distinct by (world, set of such actions, edit kind)",
+        "histories": len(all_res), "corpus_histories": len(corpus_res), "generated_histories": len(results),
+        "generated_histories_parallel_warm_run(oracle only)": len(par_res),
+        "work_cut_by": "fixed counts per tier (N_GENERATED, N_PARALLEL in checks/c04.py); no time box",
+        "actions_observed": n_actions,
         "edit_kinds": op_hist, "hit_patterns": hit_hist,
         "history_lengths": sorted(set(len(r["steps"]) for r in all_res)),
-        "observed_action_tags": at, "observed_package_tags": pt,
+        "observed_action_tags": at, "observed_package_tags": pt, "observed_cfg_fields_hashed": cf, "observed_env_hashed": ev,
+        "source_shape": src,
         "model_required_tags": {"action": req_act, "package": req_pkg},
-        "source_listing_crosscheck": source_listing(),
-        "prewarmed_std_for(-go,GOOS)": [list(c) for c in warmed],
-        "model_tie": {"histories_replayed_by_model": len(all_res) if model_ok else 0, "token_mismatches": len(tie_diffs),
+        "generated_lean_rewritten": bool(gen_changed),
+        "witness_expectations": {"checked": n_expect, "key_requirements_unmet": len(unmet), "weaker_notes": wnotes[:10]},
+        "prewarmed_std_for(-go,GOOS,GOARCH)": [list(c) for c in warmed],
+        "model_tie": {"histories_replayed_by_model": len(tie_res) if model_ok else 0, "token_mismatches": len(tie_diffs),
                       "encode_problems": len(encode_problems)},
-        "timing_s": {"prewarm": round(t_prewarm, 1), "histories": round(time.time() - t_hist0, 1)},
+        "timing_s": {"prewarm": round(t_prewarm, 1), "histories": round(time.time() - t_hist0, 1),
+                     "cpu_children_user+sys": round((ru1.ru_utime - ru0.ru_utime) + (ru1.ru_stime - ru0.ru_stime), 1)},
         "samples": samples,
     })
     ctx.assumptions += [
         "sha256 (cache.NewHash, cache.FileHash, cache.Subkey) is collision free and the byte serialisation of the Write calls is unambiguous: hypotheses Inj Hp / Inj H / Inj vhash of warm_eq_cold",
-        "the analysis of a package is a function of the inputs named by the key, up to the order of facts in the vetx file (hypothesis Respects): probed by the warm-vs-cold differential runs, not proved",
-        "cold run of a step that analyses tests = a cache holding only standard-library facts written by the same binary (truly empty when -tests=false); warm caches start from the same standard-library facts",
-        "salt (build id of the binary) and the analyzer list cannot change within one check run; GODEBUG is fixed to gocachehash=1 except in the corpus history that changes it",
+        "the analysis of a package is deterministic in what the model hands it (package sources as seen by the Go toolchain's build id, the configuration fields read through config.For(pass), the environment variables read by analysis-time packages, target Go version, analyzer set, dependency facts), up to the order of facts in the vetx file (hypothesis Respects); that this list is complete for inputs that are not configuration fields or environment variables is probed by the warm-vs-cold differential runs, not proved",
+        "which configuration fields / environment variables are read is extracted syntactically (config.For(pass).F, os.Getenv in the analysis-time packages linked into cmd/staticcheck, files tagged `verif` excluded); uses the extractor cannot resolve are counted as reading everything",
+        "cold run of a step that analyses tests or net/http = a cache holding only standard-library facts written by the same binary (truly empty otherwise); warm caches start from the same standard-library facts",
+        "salt (build id of the binary) and the analyzer list cannot change within one check run",
         "warnings on stderr (e.g. 'skipped package … too large') are not problems and are not compared",
     ]
     if extra_act or extra_pkg:
         ctx.notes.append("key components unknown to the model were observed (harmless for transparency, treated as extra inputs): %s %s" % (extra_act, extra_pkg))
+    if src.get("notes"):
+        ctx.notes.append("source extraction: " + "; ".join(src["notes"][:5]))
+    for w in wnotes[:5]:
+        ctx.notes.append("witness: %s" % json.dumps(w, sort_keys=True)[:300])
 
     # ---- classification
     if oracle_viol:
@@ -877,19 +1180,22 @@ def run(ctx):
             ctx.violation(name, {
                 "what": "the run sharing the cache with the earlier steps reports different problems than the same invocation on a fresh cache",
                 "how_to_replay": "./check C04 --replay <this file>; by hand: render the tree of every step with checks/c04.py:render(state), "
-                                 "run `cmd` in work/mod with STATICCHECK_CACHE=<one dir for all steps> GODEBUG=gocachehash=1 GOOS=<goos>, "
+                                 "run `cmd` in work/mod with STATICCHECK_CACHE=<one dir for all steps> GODEBUG=gocachehash=1 GOOS=<goos> GOARCH=<goarch>, "
                                  "then the last step again with STATICCHECK_CACHE=<empty dir>",
                 "ops": r["ops"][:v["step"] + 1], "states": r["states"][:v["step"] + 1],
-                "failing_step": v, "missing_key_components": missing_act + missing_pkg,
+                "failing_step": v, "obligations_failing": obligations_bad,
+                "key_requirements_unmet": [u for u in unmet if u["history"] == r["id"]][:5],
             }, text="C04: history %s step %d (%s, `%s`): warm-cache run differs from cold-cache run; only warm: %s; only cold: %s" % (
                 r["id"], v["step"], v["op"]["kind"], v["cmd"], [p[:160] for p in v["only_in_warm_cache_run"][:2]],
                 [p[:160] for p in v["only_in_cold_cache_run"][:2]]))
-    elif (not lean_ok) or tie_diffs or encode_problems or missing_act or missing_pkg:
-        # the corpus histories ARE the targeted search (one per key component); they ran above
+    elif (not lean_ok) or tie_diffs or encode_problems or obligations_bad or unmet:
+        # the corpus histories ARE the targeted search (one per key component / named input); they ran above
         ctx.violation("correspondence.json", {
             "what": "a proof obligation or the model/implementation correspondence no longer checks, but every warm run "
-                    "(corpus histories targeted at each key component + generated histories) equalled its cold run",
-            "lean": lean_broke, "missing_key_components": {"action": missing_act, "package": missing_pkg},
+                    "(corpus histories targeted at each key component and each named input + generated histories) equalled its cold run",
+            "lean": lean_broke, "obligations_failing": obligations_bad,
+            "key_requirements_unmet(an input was flipped alone and the key did not follow)": unmet[:20],
+            "source_shape": src,
             "correspondence": "C04 hist stream (hit/miss pattern, key classes, vetout components, served digests); theorems " + ", ".join(THEOREMS),
             "token_mismatches": tie_diffs[:20], "encode_problems": encode_problems[:20],
             "targeted_histories_run": [n for n, _ in corpus_res],
